@@ -14,7 +14,8 @@ def run(ctx: Ctx) -> None:
             'configuration reaches the schedule of finding D17' % (info['model_distinct'], info['defect_config_violates']))
     # binding 2: behaviours of the model replayed into the real responder
     mscs, predicted = qm.model_scenarios(ctx, 'c12')
-    scenarios, traces = run_family(ctx, 'C12', 'c12', 400, 12000, mscs)
+    from props.respfam import d22_scenarios
+    scenarios, traces = run_family(ctx, 'C12', 'c12', 400, 12000, mscs + d22_scenarios('C12'))
     d = qm.drift(traces, predicted)
     for x in d[:5]:
         print('MODEL-DRIFT property=C12 scenario=%s real multicast answers %s, model predicts %s (evidence, not a verdict: the '
